@@ -317,6 +317,21 @@ def rule_R5(ctx, f):
                     clash_call = clash_call or c
         ok = clash_call is not None and srcs >= {"const_label_pairs", "variable_labels"}
         rej = False
+        # direct form (possibly in an inlined helper): contains_key(<self.labels…>, name) for names of both kinds, each hit leading to Err
+        direct = {}
+        direct_hdr = {}
+        for c in r.calls_to(["HashMap::contains_key"]):
+            if SELF_FIELD("labels") in list(subterms(c.args[0])):
+                e = elem_of(peel(c.args[1], transparent=["Deref::deref", "LabelPair::name", "String::as_str", "AsRef::as_ref", "get_name"]))
+                be = r.bool_edges(c.target) if c.target is not None else None
+                if e and peel(e[0])[0] == "field" and not [a for a in e[1] if a not in ("iter", "into_iter")] and be and be[0] == c.result_term():
+                    direct.setdefault(peel(e[0])[2], []).append(rejecting(r, be[1]))
+                    hdr = [n_ for n_ in r.calls_to("Iterator::next") if n_.result_term() in list(subterms(c.args[1]))]
+                    direct_hdr.setdefault(peel(e[0])[2], []).extend(h_.bb for h_ in hdr)
+        is_direct = set(direct) >= {"const_label_pairs", "variable_labels"} and all(all(v) for v in direct.values())
+        if is_direct:
+            ok = rej = True
+            clash_call = None
         if clash_call is not None:
             res = clash_call.result_term()
             for bi in r.reach(clash_call.bb):
@@ -332,6 +347,20 @@ def rule_R5(ctx, f):
         ctx.ob(rid, "register|common-label-clash", ok and rej,
                "register must reject a descriptor whose const or variable label names intersect the registry's common labels (otherwise gather emits a duplicated label name); "
                "found membership test over %s, rejecting=%s" % (sorted(srcs), rej), site=clash_call.span if clash_call is not None else r.raw["span"]["at"])
+        if clash_call is None and is_direct:
+            for n in r.calls_to("Iterator::next"):
+                e = elem_of(("field", ("downcast", n.result_term(), "Some"), "0"))
+                if e and is_call(e[0], "Collector::desc"):
+                    si = r.switch_info(n.target)
+                    body_entry = [tg for v, tg in si[1] if v == 1][0]
+                    guard_edges = []
+                    for bi in r.reach(body_entry, avoid_blocks=[n.bb]):
+                        si2 = r.switch_info(bi)
+                        if si2 and si2[0][0] == "discr" and SELF_FIELD("labels") in list(subterms(si2[0][1])):
+                            skip = 1 if is_call(peel(si2[0][1], transparent=[]), "Try::branch") else 0    # Break arm of `?` on the Option / None arm of `if let`
+                            guard_edges += [(bi, t) for v, t in si2[1] if v == skip] + ([(bi, si2[2])] if not any(v == skip for v, t in si2[1]) else [])
+                    okp = all(hs and n.bb not in r.reach(body_entry, avoid_blocks=hs, avoid_edges=guard_edges) for hs in (direct_hdr.get("const_label_pairs"), direct_hdr.get("variable_labels")))
+                    ctx.ob(rid, "register|clash-check-every-descriptor", okp, "with common labels every descriptor must pass the clash check (both label kinds)", site=r.raw["span"]["at"])
         if clash_call is not None:
             # on every iteration of the descriptor loop
             for n in r.calls_to("Iterator::next"):
